@@ -143,6 +143,14 @@ class _GraphIO(collections.UserList["_core.Value"]):
 
         raise TypeError(f"Invalid types for __setitem__: {type(i)} and {type(item)}")
 
+    def __delitem__(self, i) -> None:
+        """Remove an input/output (or a slice of them) from the graph."""
+        removed = self.data[i] if isinstance(i, slice) else (self.data[i],)
+        for value in removed:
+            self._maybe_unset_graph(value)
+        super().__delitem__(i)
+        self._check_invariance()
+
     def __getitem__(self, i):
         """Get an input/output from the graph."""
         return self.data[i]
